@@ -66,6 +66,9 @@ var shapes = map[string]shape{
 	"e300.test.":     {kind: "ok", ttls: []uint32{300}, ecs: true, ad: true},
 	"enx.test.":      {kind: "nx", soaTTL: 30, soaMin: 30, ecs: true},
 	"other300.test.": {kind: "ok", ttls: []uint32{300}},
+	// An answer with records in every section, each with a TTL of its own
+	// (name server in the authority section, its address as glue).
+	"glue.test.": {kind: "glue", ttls: []uint32{30}},
 	// Answers whose OPT record carries an extended DNS error next to the
 	// client-subnet option (a resolver serving stale data says so).
 	"ede5.test.":   {kind: "ok", ttls: []uint32{5}, ecs: true, ede: true},
@@ -183,7 +186,7 @@ func answer(req *dns.Msg) (resp *dns.Msg) {
 	}
 
 	kind := sh.kind
-	if (kind == "ok" || kind == "cname" || kind == "tc") && mk(q.Name, 1, 0) == nil {
+	if (kind == "ok" || kind == "cname" || kind == "tc" || kind == "glue") && mk(q.Name, 1, 0) == nil {
 		kind = "nodata"
 		sh.soaTTL, sh.soaMin = 60, 60
 	}
@@ -201,6 +204,14 @@ func answer(req *dns.Msg) (resp *dns.Msg) {
 			})
 		}
 		resp.Truncated = kind == "tc"
+	case "glue":
+		resp.Answer = append(resp.Answer, mk(q.Name, sh.ttls[0], 0))
+		resp.Ns = append(resp.Ns, &dns.NS{
+			Hdr: dns.RR_Header{Name: "test.", Rrtype: dns.TypeNS, Class: q.Qclass, Ttl: 120}, Ns: "ns.glue.test.",
+		})
+		resp.Extra = append(resp.Extra, &dns.A{
+			Hdr: dns.RR_Header{Name: "ns.glue.test.", Rrtype: dns.TypeA, Class: q.Qclass, Ttl: 600}, A: net.IPv4(10, t1, t2, t3),
+		})
 	case "cname":
 		resp.Answer = append(resp.Answer, &dns.CNAME{
 			Hdr:    dns.RR_Header{Name: q.Name, Rrtype: dns.TypeCNAME, Class: q.Qclass, Ttl: sh.ttls[0]},
